@@ -205,7 +205,9 @@ theorem recv_checked (H : List UInt8 → List UInt8) (r : Recv) (p : Stanza) (h 
     · -- open
       split
       · exact h
-      · intro hfin; simp at hfin
+      · split
+        · exact h
+        · intro hfin; simp at hfin
 
 @[simp] theorem Recv.terminate_acc' (r : Recv) (c : JError) : (r.terminate c).acc = r.acc := Recv.terminate_acc r c
 
@@ -382,7 +384,9 @@ theorem recv_AF (H : List UInt8 → List UInt8) (r : Recv) (p : Stanza) (h : AF 
           simpa [AF, Recv.acc, Recv.fed] using h
     · split
       · exact h
-      · simpa [AF, Recv.acc, Recv.fed] using h
+      · split
+        · exact h
+        · simpa [AF, Recv.acc, Recv.fed] using h
 
 theorem terminate_AF (r : Recv) (c : JError) (h : AF r) : AF (r.terminate c) := by
   simpa [AF] using h
@@ -408,7 +412,9 @@ theorem recv_AFU (H : List UInt8 → List UInt8) (r : Recv) (p : Stanza) (h : AF
           rw [h.2]
     · split
       · exact h
-      · simpa [AFU, Recv.acc, Recv.fed] using h
+      · split
+        · exact h
+        · simpa [AFU, Recv.acc, Recv.fed] using h
 
 end Qx.C19
 namespace Qx.C19
@@ -587,7 +593,9 @@ theorem recv_RInv (H : List UInt8 → List UInt8) (data : List UInt8) (bs B : Na
             rw [hacc'', List.length_append]; omega
     · split
       · exact h
-      · simpa [RInv, Recv.acc] using h
+      · split
+        · exact h
+        · simpa [RInv, Recv.acc] using h
 
 theorem genuine_close (data : List UInt8) (bs : Nat) :
     Genuine data bs { id := 0, sender := 0, sid := 0, kind := .close } := ⟨rfl, rfl, trivial⟩
@@ -890,7 +898,9 @@ theorem recv_RD (H : List UInt8 → List UInt8) (len e : Nat) (r : Recv) (p : St
           omega
     · split
       · exact ⟨h1, h2, h3, h4⟩
-      · exact ⟨h1, h2, h3, by simp [Recv.success]⟩
+      · split
+        · exact ⟨h1, h2, h3, h4⟩
+        · exact ⟨h1, h2, h3, by simp [Recv.success]⟩
 
 theorem terminate_RD (len e : Nat) (r : Recv) (h : RD len e r) : RD len e (r.terminate .protocol) := by
   obtain ⟨h1, h2, h3, h4⟩ := h
@@ -1115,7 +1125,9 @@ theorem recv_acc_prefix (H : List UInt8 → List UInt8) (X : List UInt8) (r : Re
           rw [ht, List.append_assoc]
     · split
       · exact h
-      · exact h
+      · split
+        · exact h
+        · exact h
 
 theorem run_acc_prefix (H : List UInt8 → List UInt8) (X : List UInt8) (ops : List Op) (st : St)
     (h : ∃ t, st.r.acc = X ++ t) : ∃ t, (run H st ops).1.r.acc = X ++ t :=
@@ -1426,7 +1438,9 @@ theorem recv_REok (H : List UInt8 → List UInt8) (r : Recv) (p : Stanza) (h : R
           exact h.2
     · split
       · exact h
-      · exact h
+      · split
+        · exact h
+        · exact h
 
 /-- the same as `run_r_inv` for histories in which no timer fires -/
 theorem run_r_inv_nt (H : List UInt8 → List UInt8) (P : Recv → Prop)
@@ -1739,6 +1753,46 @@ theorem recv_old (H : List UInt8 → List UInt8) (r : Recv) (p : Stanza) : (recv
       · split
         · rfl
         · simp
-    · split <;> rfl
+    · split <;> (try split) <;> rfl
+
+end Qx.C19
+
+namespace Qx.C19
+
+/-! ### since `<open/>` needs `StartState` (repo commit 31a1bb4) nothing revives a finished in-band job either -/
+
+theorem terminate_AS (r : Recv) (c : JError) (h : AS r) : AS (r.terminate c) := by
+  by_cases hf : r.state = .finished
+  · have : r.terminate c = r := by unfold Recv.terminate; simp [hf]
+    rw [this]; exact h
+  · rcases h with h | ⟨h1, _⟩
+    · left; simpa using h
+    · exact absurd h1 hf
+
+theorem recv_AS (H : List UInt8 → List UInt8) (r : Recv) (p : Stanza) (h : AS r) : AS (recv H r p).1 := by
+  unfold recv
+  split
+  · exact h
+  · split
+    · exact checkData_AS H r h
+    · split
+      · exact h
+      · split
+        · exact h
+        · rename_i hst _
+          simp only [ne_eq, Decidable.not_not] at hst
+          refine write_AS { r with expected := r.expected + 1 } _ hst ?_
+          rcases h with h | ⟨h1, _⟩
+          · exact Or.inl h
+          · rw [hst] at h1; cases h1
+    · split
+      · exact h
+      · split
+        · exact h
+        · rename_i hst _
+          simp only [ne_eq, Decidable.not_not] at hst
+          rcases h with h | ⟨h1, _⟩
+          · exact Or.inl h
+          · rw [hst] at h1; cases h1
 
 end Qx.C19
